@@ -1,8 +1,6 @@
-import Driver.C10
+import Driver.Handlers
 /-! Line-protocol driver: one operation per input line, one answer line per operation.
     Runs the same definitions the theorems are about. Core-only (links as `lean_exe`). -/
-
-def handlers : List (List String → Option String) := [Driver.C10.handle]
 
 def dispatch (line : String) : String :=
   let ws := (line.trimAscii.toString.splitOn " ").filter (· ≠ "")
